@@ -10,6 +10,15 @@
 //   x start configuration (interior lattice point x 26 directions | near-boundary tangent
 //     family | start ON a boundary reached by linear move + cross, optional set_dir)
 //   x requested step x subdivision k in {1,2,5}
+// Fields: uniform along x / z / oblique (also with negative components) at 1 mT / 1 T / 100 T,
+// B = 0, UniformZField, RZMapField with uniform content, with smooth non-uniform content, and a
+// map that is SMALLER than the world (uniform inside, documented zero field outside).
+// Driver options: default, tight, loose, max_substeps 1/100, max_nsteps 3/1/10, bump_distance <
+// minimum_step, step-control exponents (thorough).
+// Steps: 0.5 minimum_step .. 1e3 radii, plus 1e-20 / 1e-15 (below the coordinate resolution:
+// zero-length chord) for head-on starts within minimum_step, on-boundary starts and one interior
+// start.  The (start, step) checkerboard colour depends on the block (radius, stepper/field), so
+// both colours of every pair are executed in each tier.
 // A "trajectory" is k consecutive propagations of step/k with a *fresh* propagator per call
 // (exactly what the along-step action does); a boundary that is hit is crossed and the
 // trajectory continues in the next volume, so on-boundary starts also arise naturally.
@@ -23,16 +32,29 @@
 //              volume id unchanged by the call
 //   member     off-boundary end point is not deeper than delta_intersection inside a foreign
 //              analytic region; on-boundary end point is within 1e-6 of the analytic surface of
-//              the volume it was travelling in
-//   helix      (uniform fields) end point AND end direction vs the long-double analytic helix
-//              through the start state at arc length = sum of returned distances, per call and
-//              cumulatively over the subdivided trajectory; tolerance: see TOLERANCE MODEL below
+//              the volume it was travelling in; a reported landing can be crossed
+//   helix      end point AND end direction vs the long-double analytic helix through the start
+//              state at arc length = sum of returned distances, per call and cumulatively over
+//              the subdivided trajectory; tolerance: see TOLERANCE MODEL below.  Applies to the
+//              uniform fields, to B = 0 (straight line) and to the small RZ map whenever the
+//              ball the call can reach lies entirely inside (helix) or outside (straight line)
 //   skip       32 samples of the analytic helix per call: no foreign region is deeper than
 //              delta_chord + dchord_tol + delta_intersection + (helix tolerance) inside
 //   factory    k = 1: make_mag_field_propagator on an identical second track slot must give
 //              bit-identical results to make_mag_field_stepper + make_field_propagator, which is
 //              what all other calls use so that stepper applications can be counted
+//   rzmap      RZMapField::operator() at geometry points, their mirror images, the axis, a lattice
+//              over and beyond each map, map edges and grid lines +-1 ulp vs a long-double
+//              re-interpolation of the input tables (case ids rzmap=rzu|rzs|rzi)
+//   nolimit    FieldPropagator::operator()() from interior starts (case ids nolimit:...)
 //   zhx        ZHelixStepper single steps inside / outside the configuration of its unit test
+//
+// Small max_nsteps (option sets nsteps1/3/10): every stepper application is recorded and
+// FieldDriver::advance is replayed on the record (analyse_trace).  A violation is attributed to
+// "find_next_chord / one_good_step ran out of trials and returned a step with the state of
+// another trial" ONLY when that exit was observed in the judged call; the oracle stays in the
+// signature:  driver:<mechanism>-step-and-state-disagree[<oracle signature>].  Everything else
+// in those option sets is reported under its real signature.
 //
 // Case ids:  block id  "g=<geom>;sf=<stepper:field>;q=<+|->;r=<ratio idx>;o=<options>"
 //            full id   block id + ";c=<start cfg>;s=<step idx>;k=<k>"
@@ -398,9 +420,31 @@ static void build_rotdau(vf::Run& R, Geo& G)
 // propagation loop consumed each straight-line query (coverage tags only; it does not change
 // any answer).  FieldPropagator is a template on the track view (CheckedGeoTrackView in the
 // unit tests plays the same role).
+// Record of what the FieldDriver did during one propagator call, filled by CountStepper (every
+// stepper application) and TraceGeo (find_next_step is called exactly once after every
+// FieldDriver::advance, which delimits the advances).  Observation only.
+struct AppRec
+{
+    double h;  // trial length handed to the stepper
+    Real3 pos, mom;  // start state of the application
+    double dchord;  // sagitta of this application (same arithmetic as detail::distance_chord)
+    double err_sq;  // truncation error estimate relative to h and |p|, NOT yet divided by eps^2
+    int adv;  // index of the FieldDriver::advance call it belongs to
+};
+struct DriverTrace
+{
+    bool full{false};  // keep every application (only for option sets with a small max_nsteps)
+    int adv{0};
+    bool adv_open{false};
+    double h_first{0};  // first trial length of the advance that is being recorded
+    double last_h_first{0};  // ... of the most recent advance that was followed by a find_next_step
+    std::vector<AppRec> apps;
+};
+
 struct TraceGeo
 {
     OrangeTrackView& g;
+    DriverTrace* tr{nullptr};
     int n_find{0}, n_accept{0}, n_retry{0}, n_setdir{0}, n_to_boundary{0};
     bool last_hit{false}, pending{false};
     bool endpoint_before_intercept{false};
@@ -420,6 +464,12 @@ struct TraceGeo
         if (pending && last_hit)
             ++n_retry;
         ++n_find;
+        if (tr)
+        {
+            tr->last_h_first = tr->h_first;
+            tr->adv_open = false;
+            ++tr->adv;
+        }
         Propagation p = g.find_next_step(d);
         if (verbose)
             fprintf(stderr, "      find from (%.9g,%.9g,%.9g) along (%.6g,%.6g,%.6g) up to %.9g -> %.9g %s\n",
@@ -555,8 +605,8 @@ static LD landing_term(TolModel const& T, Helix const& H)
     LD loose = 2 * rp + T.d_int;
     LD dc = T.d_chord + T.dchord_tol;
     LD A;
-    if (rp <= 0 || H.sin_pitch == 0)
-        A = 1;  // straight along the field: chord == arc
+    if (rp <= 0 || H.sin_pitch == 0 || H.omega == 0)
+        A = 1;  // straight (along the field, or no field): chord == arc
     else if (2 * rp <= dc)
         A = 1e300L;  // the sagitta test never limits the rotation per substep
     else
@@ -585,9 +635,12 @@ enum class Fk
     ux,
     uz,
     uobl,
+    uneg,  // oblique with two negative components
+    u0,  // B = 0 (valid UniformField{0,0,0}): straight line
     uzf,
     rzu,
-    rzs
+    rzs,
+    rzi  // RZ map that is SMALLER than the world (uniform content inside, zero field outside)
 };
 struct SF
 {
@@ -595,7 +648,7 @@ struct SF
     Fk fk;
     double bmag;  // gauss
     std::string name;
-    bool uniform() const { return fk != Fk::rzs; }
+    bool uniform() const { return fk != Fk::rzs && fk != Fk::rzi; }
 };
 
 struct OptSet
@@ -637,10 +690,22 @@ static std::vector<OptSet> make_options(bool thorough)
         o.max_substeps = 100;
         v.push_back({"sub100", o});
     }
+    // max_nsteps budgets: 1 (every trial loop gives up after its first rejected trial), 3, and
+    // 10 (the chord search, which at least halves, still converges for R <= step <= 1e3 R unless
+    // R >> delta_chord; accurate_advance runs out after 10 integrations)
+    for (int n : {3, 1, 10})
     {
         FieldDriverOptions o;
-        o.max_nsteps = 3;
-        v.push_back({"nsteps3", o});
+        o.max_nsteps = n;
+        v.push_back({fmt("nsteps%d", n), o});
+    }
+    {
+        // bump_distance (0.1 delta_intersection = 1e-6) < minimum_step (5e-6): in every other set
+        // bump_distance >= minimum_step, mostly equal
+        FieldDriverOptions o;
+        o.minimum_step = 5e-6;
+        o.delta_intersection = 1e-5;
+        v.push_back({"bumplt", o});
     }
     if (thorough)
     {
@@ -776,7 +841,7 @@ struct Particles
 //---------------------------------------------------------------------------//
 struct FieldSet
 {
-    std::shared_ptr<RZMapFieldParams> rz_uniform, rz_smooth;
+    std::shared_ptr<RZMapFieldParams> rz_uniform, rz_smooth, rz_inner;
 };
 
 // Counts stepper applications (the unit tests' DiagnosticStepper does the same).  The count N
@@ -789,10 +854,48 @@ struct CountStepper
     S s;
     int* n;
     bool verbose{false};
+    DriverTrace* tr{nullptr};
     FieldStepperResult operator()(real_type h, OdeState const& y) const
     {
         ++*n;
         FieldStepperResult r = s(h, y);
+        if (tr)
+        {
+            if (!tr->adv_open)
+            {
+                tr->adv_open = true;
+                tr->h_first = h;
+            }
+            if (tr->full)
+            {
+                AppRec a;
+                a.h = h;
+                a.pos = y.pos;
+                a.mom = y.mom;
+                a.adv = tr->adv;
+                // sagitta |AB x AM| / |AB| and max(|err_x|^2/h^2, |err_p|^2/|p|^2), written out
+                // here with the library's operation order: they only mirror which branch the
+                // driver took (they decide nothing about right or wrong)
+                double am[3], ab[3];
+                for (int i = 0; i < 3; ++i)
+                {
+                    am[i] = r.mid_state.pos[i] - y.pos[i];
+                    ab[i] = r.end_state.pos[i] - y.pos[i];
+                }
+                double c[3] = {ab[1] * am[2] - ab[2] * am[1], ab[2] * am[0] - ab[0] * am[2],
+                               ab[0] * am[1] - ab[1] * am[0]};
+                a.dchord = std::sqrt((c[0] * c[0] + c[1] * c[1] + c[2] * c[2])
+                                     / (ab[0] * ab[0] + ab[1] * ab[1] + ab[2] * ab[2]));
+                double ep = r.err_state.pos[0] * r.err_state.pos[0] + r.err_state.pos[1] * r.err_state.pos[1]
+                            + r.err_state.pos[2] * r.err_state.pos[2];
+                double em = r.err_state.mom[0] * r.err_state.mom[0] + r.err_state.mom[1] * r.err_state.mom[1]
+                            + r.err_state.mom[2] * r.err_state.mom[2];
+                ep /= h * h;
+                em /= y.mom[0] * y.mom[0] + y.mom[1] * y.mom[1] + y.mom[2] * y.mom[2];
+                a.err_sq = std::max(ep, em);
+                tr->apps.push_back(a);
+            }
+        }
         if (verbose)
             fprintf(stderr, "        stepper h=%.9g from (%.9g,%.9g,%.9g) -> end (%.9g,%.9g,%.9g) mid (%.9g,%.9g,%.9g) |errpos|/h=%.3g |errmom|/p=%.3g |p_end|/|p|-1=%.3g\n",
                     h, y.pos[0], y.pos[1], y.pos[2], r.end_state.pos[0], r.end_state.pos[1], r.end_state.pos[2],
@@ -807,6 +910,85 @@ struct CountStepper
     }
 };
 
+// Which "ran out of trials" exits of the FieldDriver were taken during one propagator call.
+// Replays FieldDriver::advance on the recorded applications: per advance the leading applications
+// are find_next_chord trials (at most max_nsteps, until the sagitta passes); if more applications
+// follow, the chord state was discarded and accurate_advance ran (groups of one_good_step trials
+// that share a start state, at most max_nsteps each, until the error estimate passes).
+struct Exhaust
+{
+    bool chord_kept{false};  // find_next_chord ran out and its (step, state) pair was returned
+    bool chord_discarded{false};  // ... ran out but accurate_advance replaced the result
+    bool ogs{false};  // one_good_step ran out (its rescaled step is returned with the state of
+                      // the last, rejected, trial)
+    bool acc_budget{false};  // accurate_advance used all of its max_nsteps integrations
+    bool any_mismatch() const { return chord_kept || ogs; }
+};
+static Exhaust analyse_trace(DriverTrace const& tr, FieldDriverOptions const& o)
+{
+    Exhaust x;
+    double const dc_thr = o.delta_chord + FieldDriverOptions::dchord_tol;
+    double const eps2 = o.epsilon_rel_max * o.epsilon_rel_max;
+    size_t const n_all = tr.apps.size();
+    size_t b = 0;
+    while (b < n_all)
+    {
+        size_t e = b;
+        while (e < n_all && tr.apps[e].adv == tr.apps[b].adv)
+            ++e;
+        // [b, e) is one FieldDriver::advance
+        size_t i = b;
+        if (!(tr.apps[b].h <= o.minimum_step))
+        {
+            int trials = 0;
+            bool ok = false;
+            while (i < e)
+            {
+                ++trials;
+                bool const fail = tr.apps[i].dchord > dc_thr;
+                ++i;
+                if (!fail)
+                {
+                    ok = true;
+                    break;
+                }
+                if (trials == o.max_nsteps)
+                    break;
+            }
+            if (!ok)
+                (i == e ? x.chord_kept : x.chord_discarded) = true;
+            int integrations = 0;
+            while (i < e)
+            {
+                ++integrations;
+                if (tr.apps[i].h <= o.minimum_step)
+                {
+                    ++i;  // integrate_step: quick advance
+                    continue;
+                }
+                size_t const g0 = i;
+                trials = 0;
+                bool fail = false;
+                while (i < e && tr.apps[i].pos == tr.apps[g0].pos && tr.apps[i].mom == tr.apps[g0].mom
+                       && trials < o.max_nsteps)
+                {
+                    ++trials;
+                    fail = tr.apps[i].err_sq / eps2 > 1;
+                    ++i;
+                    if (!fail)
+                        break;
+                }
+                if (fail && trials == o.max_nsteps)
+                    x.ogs = true;
+            }
+            if (integrations >= o.max_nsteps)
+                x.acc_budget = true;
+        }
+        b = e;
+    }
+    return x;
+}
+
 // direct == true : make_mag_field_propagator (the anchored factory), no counting
 // direct == false: make_mag_field_stepper + CountStepper + make_field_propagator (the two
 //                  functions the factory is composed of)
@@ -817,13 +999,19 @@ static Propagation run_prop(FieldT& field,
                             GTV& geo,
                             real_type step,
                             bool direct,
-                            int* nsteps)
+                            int* nsteps,
+                            DriverTrace* tr = nullptr)
 {
+    // step < 0: FieldPropagator::operator()() (no step limit)
     if (direct)
-        return make_mag_field_propagator<StepperT>(field, opts, particle, geo)(step);
+    {
+        auto prop = make_mag_field_propagator<StepperT>(field, opts, particle, geo);
+        return step < 0 ? prop() : prop(step);
+    }
     auto stepper = make_mag_field_stepper<StepperT>(field, particle.charge());
-    CountStepper<decltype(stepper)> cs{stepper, nsteps, g_verbose_stepper};
-    return make_field_propagator(cs, opts, particle, geo)(step);
+    CountStepper<decltype(stepper)> cs{stepper, nsteps, g_verbose_stepper, tr};
+    auto prop = make_field_propagator(cs, opts, particle, geo);
+    return step < 0 ? prop() : prop(step);
 }
 
 template<class GTV>
@@ -835,38 +1023,48 @@ static Propagation propagate_once(SF const& sf,
                                   GTV& geo,
                                   real_type step,
                                   bool direct,
-                                  int* nsteps)
+                                  int* nsteps,
+                                  DriverTrace* tr = nullptr)
 {
     switch (sf.fk)
     {
         case Fk::ux:
         case Fk::uz:
-        case Fk::uobl: {
+        case Fk::uobl:
+        case Fk::uneg:
+        case Fk::u0: {
             UniformField field(Real3{double(B[0]), double(B[1]), double(B[2])});
             if (sf.st == St::dp)
-                return run_prop<DormandPrinceStepper>(field, opts, particle, geo, step, direct, nsteps);
-            return run_prop<RungeKuttaStepper>(field, opts, particle, geo, step, direct, nsteps);
+                return run_prop<DormandPrinceStepper>(field, opts, particle, geo, step, direct, nsteps, tr);
+            return run_prop<RungeKuttaStepper>(field, opts, particle, geo, step, direct, nsteps, tr);
         }
         case Fk::uzf: {
             UniformZField field{double(B[2])};
             if (sf.st == St::dp)
-                return run_prop<DormandPrinceStepper>(field, opts, particle, geo, step, direct, nsteps);
+                return run_prop<DormandPrinceStepper>(field, opts, particle, geo, step, direct, nsteps, tr);
             if (sf.st == St::rk4)
-                return run_prop<RungeKuttaStepper>(field, opts, particle, geo, step, direct, nsteps);
-            return run_prop<ZHelixStepper>(field, opts, particle, geo, step, direct, nsteps);
+                return run_prop<RungeKuttaStepper>(field, opts, particle, geo, step, direct, nsteps, tr);
+            return run_prop<ZHelixStepper>(field, opts, particle, geo, step, direct, nsteps, tr);
         }
         case Fk::rzu:
-        case Fk::rzs: {
-            RZMapField field((sf.fk == Fk::rzu ? fs.rz_uniform : fs.rz_smooth)->host_ref());
+        case Fk::rzs:
+        case Fk::rzi: {
+            RZMapField field((sf.fk == Fk::rzu   ? fs.rz_uniform
+                              : sf.fk == Fk::rzs ? fs.rz_smooth
+                                                 : fs.rz_inner)
+                                 ->host_ref());
             if (sf.st == St::dp)
-                return run_prop<DormandPrinceStepper>(field, opts, particle, geo, step, direct, nsteps);
-            return run_prop<RungeKuttaStepper>(field, opts, particle, geo, step, direct, nsteps);
+                return run_prop<DormandPrinceStepper>(field, opts, particle, geo, step, direct, nsteps, tr);
+            return run_prop<RungeKuttaStepper>(field, opts, particle, geo, step, direct, nsteps, tr);
         }
     }
     return {};
 }
 
-static std::shared_ptr<RZMapFieldParams> make_rz(double bz, bool smooth)
+// kind 0: uniform content, map contains the world | 1: smooth non-uniform content, contains the
+// world | 2: uniform content on a map that lies INSIDE the world (r <= 10, -12 <= z <= 14;
+// asymmetric and max_r != max_z on purpose)
+static RZMapFieldInput make_rz_input(double bz, int kind)
 {
     RZMapFieldInput inp;
     inp.num_grid_z = 21;
@@ -875,13 +1073,21 @@ static std::shared_ptr<RZMapFieldParams> make_rz(double bz, bool smooth)
     inp.max_z = 60;
     inp.min_r = 0;
     inp.max_r = 60;
+    if (kind == 2)
+    {
+        inp.num_grid_z = 14;
+        inp.num_grid_r = 6;
+        inp.min_z = -12;
+        inp.max_z = 14;
+        inp.max_r = 10;
+    }
     for (unsigned iz = 0; iz < inp.num_grid_z; ++iz)
         for (unsigned ir = 0; ir < inp.num_grid_r; ++ir)
         {
             double z = inp.min_z + (inp.max_z - inp.min_z) * iz / (inp.num_grid_z - 1);
             double r = inp.max_r * ir / (inp.num_grid_r - 1);
             double fz = bz, fr = 0;
-            if (smooth)
+            if (kind == 1)
             {
                 fz = bz * (1 + 0.3 * std::cos(z / 25) - 0.2 * (r / 60) * (r / 60));
                 fr = bz * 0.25 * (r / 60) * std::sin(z / 25);
@@ -889,7 +1095,176 @@ static std::shared_ptr<RZMapFieldParams> make_rz(double bz, bool smooth)
             inp.field_z.push_back(fz);
             inp.field_r.push_back(fr);
         }
-    return std::make_shared<RZMapFieldParams>(inp);
+    return inp;
+}
+static std::shared_ptr<RZMapFieldParams> make_rz(double bz, int kind)
+{
+    return std::make_shared<RZMapFieldParams>(make_rz_input(bz, kind));
+}
+
+static constexpr double rzi_max_r = 10, rzi_min_z = -12, rzi_max_z = 14;
+// signed depth of a point inside the small map's cylinder (> 0: inside)
+static LD rzi_depth(Real3 const& x)
+{
+    LD r = sqrtl((LD)x[0] * x[0] + (LD)x[1] * x[1]);
+    return std::min<LD>(rzi_max_r - r, std::min<LD>(rzi_max_z - x[2], x[2] - rzi_min_z));
+}
+
+//---------------------------------------------------------------------------//
+// RZMapField value oracle.  The map stores (B_z, B_r) on a uniform (z, r) grid; the class
+// interpolates B_z linearly in z along the grid line of the LOWER r index, B_r linearly in r along
+// the grid line of the LOWER z index, returns B_x = B_r x/r, B_y = B_r y/r, and zero outside
+// [min_z, max_z] x [min_r, max_r] (both ends inclusive).  Re-derived here in long double from the
+// input arrays.  Rounding: every operation of the double evaluation is within eps of exact and
+// the fraction (v - knot)/delta carries the rounding of knot = front + delta*i (<= 2 eps |v|/delta):
+// tolerance 32 eps (|low| + |high|) (1 + max|coordinate|/delta).  Within 8 ulp of an interior grid
+// line the neighbouring bin is accepted as well (B_z jumps across r lines, B_r across z lines).
+struct RzOracle
+{
+    RZMapFieldInput in;
+    LD dz() const { return (LD(in.max_z) - in.min_z) / (in.num_grid_z - 1); }
+    LD dr() const { return (LD(in.max_r) - in.min_r) / (in.num_grid_r - 1); }
+    LD fz(int iz, int ir) const { return in.field_z[iz * in.num_grid_r + ir]; }
+    LD fr(int iz, int ir) const { return in.field_r[iz * in.num_grid_r + ir]; }
+    static void bins(LD v, LD front, LD delta, int n, int out[2], int* nout)
+    {
+        LD q = (v - front) / delta;
+        int b = int(floorl(q));
+        b = std::max(0, std::min(b, n - 2));
+        out[0] = b;
+        *nout = 1;
+        LD const amb = 8 * 2.3e-16L * (fabsl(v) + fabsl(front)) / delta;
+        if (b > 0 && q - b < amb)
+            out[(*nout)++] = b - 1;
+        if (b < n - 2 && (b + 1) - q < amb)
+            out[(*nout)++] = b + 1;
+    }
+    // true if `got` agrees with one admissible evaluation
+    bool check(Real3 const& x, Real3 const& got, LD want[3], LD* tol_out) const
+    {
+        LD r = sqrtl((LD)x[0] * x[0] + (LD)x[1] * x[1]);
+        double rd = std::sqrt(x[0] * x[0] + x[1] * x[1]);  // the library's r (correctly rounded ops)
+        LD z = x[2];
+        want[0] = want[1] = want[2] = 0;
+        *tol_out = 0;
+        bool const in_z = x[2] >= in.min_z && x[2] <= in.max_z;
+        // r is compared after rounding: one ulp either side of max_r both answers are admissible
+        bool const in_r = rd >= in.min_r && rd <= in.max_r;
+        bool const r_edge = fabsl(r - in.max_r) <= 4 * 2.3e-16L * in.max_r;
+        auto is_zero = [&] { return got[0] == 0 && got[1] == 0 && got[2] == 0; };
+        if (!in_z || (!in_r && !r_edge))
+            return is_zero();
+        if (r_edge && is_zero())
+            return true;
+        int bz[2], br[2], nz, nr;
+        bins(z, in.min_z, dz(), in.num_grid_z, bz, &nz);
+        bins(r, in.min_r, dr(), in.num_grid_r, br, &nr);
+        bool okz = false, okr = false;
+        for (int a = 0; a < nz; ++a)
+            for (int b = 0; b < nr; ++b)
+            {
+                int iz = bz[a], ir = br[b];
+                LD tz = (z - (in.min_z + dz() * iz)) / dz();
+                LD tr = (r - (in.min_r + dr() * ir)) / dr();
+                LD lo = fz(iz, ir), hi = fz(iz + 1, ir);
+                LD wz = lo + (hi - lo) * tz;
+                LD tolz = 32 * 2.3e-16L * (fabsl(lo) + fabsl(hi)) * (1 + fabsl(z) / dz());
+                lo = fr(iz, ir);
+                hi = fr(iz, ir + 1);
+                LD wr = lo + (hi - lo) * tr;
+                LD tolr = 32 * 2.3e-16L * (fabsl(lo) + fabsl(hi)) * (1 + r / dr());
+                LD wx = r > 0 ? wr * x[0] / r : 0, wy = r > 0 ? wr * x[1] / r : 0;
+                if (a == 0 && b == 0)
+                {
+                    want[0] = wx;
+                    want[1] = wy;
+                    want[2] = wz;
+                    *tol_out = std::max(tolz, tolr);
+                }
+                okz |= fabsl(got[2] - wz) <= tolz;
+                okr |= fabsl(got[0] - wx) <= tolr && fabsl(got[1] - wy) <= tolr;
+            }
+        return okz && okr;
+    }
+};
+
+static void rzmap_value_cases(vf::Run& R, char const* name, RZMapFieldInput const& inp,
+                              RZMapFieldParams const& params,
+                              std::vector<std::unique_ptr<Geo>> const& geos)
+{
+    std::string cid = std::string("rzmap=") + name;
+    if (!R.want(cid))
+        return;
+    R.begin_case(cid, 30);
+    RzOracle O{inp};
+    RZMapField field(params.host_ref());
+    std::vector<Real3> pts;
+    auto add_sym = [&](Real3 p) {
+        // the point and its mirror images: the map depends on (|r|, z) only, the vector follows x, y
+        for (int sx : {1, -1})
+            for (int sy : {1, -1})
+                for (int sz : {1, -1})
+                    pts.push_back({sx * p[0], sy * p[1], sz * p[2]});
+        pts.push_back({p[1], p[0], p[2]});  // x <-> y (the unit test only has x == y)
+        pts.push_back({0, 0, p[2]});  // on the axis: r == 0
+        pts.push_back({p[0], 0, p[2]});
+        pts.push_back({0, p[1], p[2]});
+    };
+    for (auto const& g : geos)
+    {
+        for (Real3 const& p : g->interior)
+            add_sym(p);
+        for (SurfPt const& sp : g->surf)
+            add_sym(sp.s);
+    }
+    // a generic lattice over and beyond the map (3 x 3 x 4 per bin would be too many: 7 x 7 x 9)
+    for (int i = 0; i <= 6; ++i)
+        for (int j = 0; j <= 6; ++j)
+            for (int k = 0; k <= 8; ++k)
+            {
+                double rr = inp.max_r * (0.013 + 0.181 * i);  // up to 1.1 max_r
+                double ph = 0.37 + 0.97 * j;
+                double zz = inp.min_z + (inp.max_z - inp.min_z) * (-0.06 + 0.1401 * k);
+                pts.push_back({rr * std::cos(ph), rr * std::sin(ph), zz});
+            }
+    // map edges exactly and one ulp either side; grid lines exactly
+    for (double zz : {inp.min_z, inp.max_z, inp.min_z + (inp.max_z - inp.min_z) / (inp.num_grid_z - 1)})
+        for (int d = -1; d <= 1; ++d)
+        {
+            double ze = std::nextafter(zz, d < 0 ? -1e300 : 1e300);
+            if (d == 0)
+                ze = zz;
+            pts.push_back({0.3 * inp.max_r, -0.2 * inp.max_r, ze});
+            pts.push_back({0, 0, ze});
+        }
+    for (double rr : {inp.max_r, inp.max_r / (inp.num_grid_r - 1), 0.5 * (inp.max_r + inp.max_z)})
+        for (int d = -1; d <= 1; ++d)
+        {
+            double re = d == 0 ? rr : std::nextafter(rr, d < 0 ? 0 : 1e300);
+            pts.push_back({re, 0, 0.37 * inp.max_z});
+            pts.push_back({0, -re, 0.11 * inp.min_z});
+            pts.push_back({0.6 * re, 0.8 * re, 0.5});
+        }
+    for (Real3 const& x : pts)
+    {
+        Real3 got = field(x);
+        LD want[3], tol;
+        R.count("evaluations");
+        R.count("rzmap_value_evals");
+        bool ok = O.check(x, got, want, &tol);
+        LD r = sqrtl((LD)x[0] * x[0] + (LD)x[1] * x[1]);
+        R.tag(r == 0                                              ? "rzmap:on-axis"
+              : (r > inp.max_r || x[2] < inp.min_z || x[2] > inp.max_z) ? "rzmap:outside-map"
+                                                                        : "rzmap:inside-map");
+        if (!ok)
+            R.violation("rzmap:value-mismatch", cid,
+                        fmt("RZMapField[%s] at (%s,%s,%s) r=%Lg = (%s,%s,%s); re-interpolated from the "
+                            "input table: (%Lg,%Lg,%Lg) tol %Lg",
+                            name, vf::dstr(x[0]).c_str(), vf::dstr(x[1]).c_str(), vf::dstr(x[2]).c_str(), r,
+                            vf::dstr(got[0]).c_str(), vf::dstr(got[1]).c_str(), vf::dstr(got[2]).c_str(),
+                            want[0], want[1], want[2], tol));
+    }
+    R.end_case();
 }
 
 static LD dist3(LD const a[3], LD const b[3])
@@ -964,6 +1339,91 @@ static void zhelix_domain_cases(vf::Run& R, int which)
 }
 
 //---------------------------------------------------------------------------//
+// FieldPropagator::operator()(): "propagate a charged particle until it hits a boundary" (no step
+// limit).  Interior starts only.  The call must come back with a finite positive distance and a
+// finite state, either on a boundary (flag == geometry state, point on the analytic surface of
+// the start volume) or flagged as looping, and in a uniform field on the helix at that distance.
+static void nolimit_cases(vf::Run& R, Geo& G, Particles& parts, FieldSet const& fs)
+{
+    FieldDriverOptions opts;
+    TolModel T{opts.epsilon_rel_max, opts.minimum_step, opts.delta_intersection, opts.delta_chord,
+               FieldDriverOptions::dchord_tol};
+    auto dirs = lattice_dirs();
+    SF const sfl[] = {{St::dp, Fk::uz, 1e4, "dp:uz:1T"}, {St::rk4, Fk::ux, 1e4, "rk4:ux:1T"}};
+    for (SF const& sf : sfl)
+        for (double radius : {0.5, 5.0, 50.0})
+            for (int q : {-1, 1})
+                for (size_t ip = 0; ip < G.interior.size(); ++ip)
+                    for (size_t id = ip % 3; id < dirs.size(); id += 3)
+                    {
+                        std::string cid = fmt("nolimit:g=%s;sf=%s;q=%c;R=%g;p=%zu;d=%zu", G.name.c_str(),
+                                              sf.name.c_str(), q < 0 ? '-' : '+', radius, ip, id);
+                        if (!R.want(cid))
+                            continue;
+                        R.begin_case(cid, 20);
+                        LD B[3] = {0, 0, 0};
+                        B[sf.fk == Fk::ux ? 0 : 2] = sf.bmag;
+                        LD const p_target = kappa * sf.bmag * radius;
+                        double const ke
+                            = double(p_target * p_target
+                                     / (sqrtl(p_target * p_target + LD(electron_mass) * electron_mass)
+                                        + electron_mass));
+                        LD const p_mev = sqrtl(LD(ke) * (LD(ke) + 2 * LD(electron_mass)));
+                        auto geo = G.track();
+                        geo = GeoTrackInitializer{G.interior[ip], dirs[id]};
+                        auto particle = parts.view();
+                        particle = ParticleTrackView::Initializer_t{q < 0 ? parts.eminus : parts.eplus,
+                                                                    units::MevEnergy{ke}};
+                        Helix H;
+                        H.init(geo.pos(), geo.dir(), B, q, p_mev);
+                        int const reg0 = G.vol2reg[geo.volume_id().unchecked_get()];
+                        TraceGeo tg{geo};
+                        int nst = 0;
+                        Propagation r = propagate_once(sf, fs, B, opts, particle, tg, -1.0, false, &nst);
+                        R.count("evaluations");
+                        R.count("nolimit_cases");
+                        std::string what
+                            = fmt("propagate() [no step limit] %s q=%d R=%g from (%g,%g,%g) along (%g,%g,%g): "
+                                  "distance=%s boundary=%d looping=%d pos=(%g,%g,%g) dir=(%g,%g,%g) "
+                                  "geo.is_on_boundary=%d steppercalls=%d",
+                                  sf.name.c_str(), q, radius, G.interior[ip][0], G.interior[ip][1],
+                                  G.interior[ip][2], dirs[id][0], dirs[id][1], dirs[id][2],
+                                  vf::dstr(r.distance).c_str(), r.boundary, r.looping, geo.pos()[0],
+                                  geo.pos()[1], geo.pos()[2], geo.dir()[0], geo.dir()[1], geo.dir()[2],
+                                  geo.is_on_boundary(), nst);
+                        bool finite = std::isfinite(r.distance) && r.distance > 0;
+                        for (int i = 0; i < 3; ++i)
+                            finite = finite && std::isfinite(geo.pos()[i]) && std::isfinite(geo.dir()[i]);
+                        if (!finite)
+                        {
+                            R.tag("nolimit:non-finite");
+                            R.violation("nolimit:operator()()-returns-infinite-distance-and-nan-state", cid, what);
+                            R.end_case();
+                            continue;
+                        }
+                        R.tag(r.boundary ? "nolimit:boundary" : (r.looping ? "nolimit:looping" : "nolimit:neither"));
+                        if (r.boundary == r.looping)
+                            R.violation("nolimit:neither-boundary-nor-looping", cid, what);
+                        if (r.boundary != geo.is_on_boundary())
+                            R.violation("nolimit:boundary-flag-differs-from-geometry", cid, what);
+                        LD pe[3] = {geo.pos()[0], geo.pos()[1], geo.pos()[2]};
+                        if (r.boundary && fabsl(region_depth(G.prims, G.regions[reg0], pe)) > 1e-6L)
+                            R.violation("nolimit:boundary-point-not-on-surface", cid, what);
+                        // same tolerance model as the lattice (terms a, b, c, e)
+                        LD hp[3], hd[3];
+                        H.eval(r.distance, hp, hd);
+                        LD const D = r.distance;
+                        LD const tol = T.eps * (1 + 2 * nst) * D + 2 * T.min_step + T.d_int
+                                       + (r.boundary ? landing_term(T, H) : 0) + 1e-12L * (20 + D);
+                        LD dev = dist3(hp, pe);
+                        if (!(dev <= tol))
+                            R.violation("nolimit:end-point-off-helix", cid,
+                                        what + fmt(" :: dev=%Lg tol=%Lg", dev, tol));
+                        R.end_case();
+                    }
+}
+
+//---------------------------------------------------------------------------//
 int main(int argc, char** argv)
 {
     vf::Run R(argc, argv, "C08", "c08_field");
@@ -1017,14 +1477,22 @@ int main(int argc, char** argv)
             sfs.push_back({st, Fk::uzf, 1e4, fmt("%s:uzf:1T", sn)});
             sfs.push_back({st, Fk::rzu, 1e4, fmt("%s:rzu:1T", sn)});
             sfs.push_back({st, Fk::rzs, 1e4, fmt("%s:rzs:1T", sn)});
+            // quick tier: the zero field and the small map with one integrator each
+            if (thorough || st == St::dp)
+                sfs.push_back({st, Fk::rzi, 1e4, fmt("%s:rzi:1T", sn)});
+            if (thorough || st == St::rk4)
+                sfs.push_back({st, Fk::u0, 0.0, fmt("%s:u0:0T", sn)});
+            if (thorough && st == St::dp)
+                sfs.push_back({st, Fk::uneg, 1e4, fmt("%s:uneg:1T", sn)});
         }
         sfs.push_back({St::zhelix, Fk::uzf, 1e4, "zhelix:uzf:1T"});
         if (thorough)
             sfs.push_back({St::zhelix, Fk::uzf, -1e4, "zhelix:uzf:-1T"});
     }
     FieldSet fs;
-    fs.rz_uniform = make_rz(1e4, false);
-    fs.rz_smooth = make_rz(1e4, true);
+    fs.rz_uniform = make_rz(1e4, 0);
+    fs.rz_smooth = make_rz(1e4, 1);
+    fs.rz_inner = make_rz(1e4, 2);
 
     //// gyroradius / geometry scale ////
     double const scale = 5.0;  // cm: half width of the inner solids
@@ -1044,7 +1512,21 @@ int main(int argc, char** argv)
     for (int z = 0; z < 5; ++z)
         if (R.mine(nblocks + z))
             zhelix_domain_cases(R, z);
+    // RZMapField values against the re-interpolated input tables (all three maps)
+    if (R.mine(nblocks + 5))
+        rzmap_value_cases(R, "rzu", make_rz_input(1e4, 0), *fs.rz_uniform, geos);
+    if (R.mine(nblocks + 6))
+        rzmap_value_cases(R, "rzs", make_rz_input(1e4, 1), *fs.rz_smooth, geos);
+    if (R.mine(nblocks + 7))
+        rzmap_value_cases(R, "rzi", make_rz_input(1e4, 2), *fs.rz_inner, geos);
+    // FieldPropagator::operator()() (no step limit)
+    for (size_t g = 0; g < geos.size(); ++g)
+        if (R.mine(nblocks + 8 + g))
+            nolimit_cases(R, *geos[g], parts, fs);
 
+    char const* const only_filter = getenv("C08_ONLY");
+    if (only_filter)
+        R.cap_hit(std::string("C08_ONLY=") + only_filter + " (block filter: not the declared lattice)");
     for (uint64_t bi = 0; bi < nblocks; ++bi)
     {
         if (!R.mine(bi))
@@ -1075,6 +1557,8 @@ int main(int argc, char** argv)
                               G.name.c_str(), sf.name.c_str(), q < 0 ? '-' : '+', ir, O.name.c_str());
         if (R.replay() && R.replay_case().compare(0, bid.size(), bid) != 0)
             continue;
+        if (only_filter && bid.find(only_filter) == std::string::npos)
+            continue;  // developer aid (mutation runs): C08_ONLY=<substring of the block id>
         R.begin_case(bid, 120);
         double const t_block = R.elapsed();
 
@@ -1088,11 +1572,22 @@ int main(int argc, char** argv)
                 B[1] = 0.48 * sf.bmag;
                 B[2] = 0.8 * sf.bmag;
                 break;
+            case Fk::uneg:
+                B[0] = -0.36 * sf.bmag;
+                B[1] = 0.48 * sf.bmag;
+                B[2] = -0.8 * sf.bmag;
+                break;
             default: B[2] = sf.bmag; break;
         }
         LD const Bn = sqrtl(B[0] * B[0] + B[1] * B[1] + B[2] * B[2]);
-        double const radius = ratios[ir] * scale;
-        LD const p_target = kappa * Bn * radius;
+        // B = 0: a straight line with round step lengths from round start points ends EXACTLY on
+        // a surface (step 1 + 1 from y = 1 to the face y = 3): a measure-zero tie that a curved
+        // path never produces and that belongs to C05 ("internal move rounded onto a surface").
+        // The zero-field block therefore uses a generic length scale.
+        double const radius = ratios[ir] * scale * (sf.fk == Fk::u0 ? 0.9371 : 1.0);
+        // zero field: the momentum that would have this gyroradius in 1 T (radius is then only the
+        // length scale of the requested steps)
+        LD const p_target = kappa * (Bn > 0 ? Bn : 1e4L) * radius;
         // kinetic energy without cancellation: p^2 / (sqrt(p^2+m^2) + m)
         double const ke = double(p_target * p_target
                                  / (sqrtl(p_target * p_target + LD(electron_mass) * electron_mass)
@@ -1103,6 +1598,7 @@ int main(int argc, char** argv)
         TolModel T{O.o.epsilon_rel_max, O.o.minimum_step, O.o.delta_intersection, O.o.delta_chord,
                    FieldDriverOptions::dchord_tol};
         double const bump = O.o.delta_intersection * 0.1;
+        bool const trace_full = O.o.max_nsteps < 100;  // record every stepper application
 
         std::vector<double> steps = {0.5 * O.o.minimum_step,
                                      O.o.minimum_step,
@@ -1110,7 +1606,31 @@ int main(int argc, char** argv)
                                      1e-3 * radius,
                                      radius,
                                      10 * radius,
-                                     1e3 * radius};
+                                     1e3 * radius,
+                                     // below the resolution of the coordinates (chord length 0):
+                                     // only for the starts selected by `tiny_start` below
+                                     1e-20,
+                                     1e-15};
+        size_t const n_regular_steps = 7;
+
+        // Field seen by a path of length <= len that starts at x, if it is known analytically:
+        // uniform fields everywhere; the small map when the whole ball around x that the call
+        // can reach (every trial step and every Runge-Kutta stage stays within the requested
+        // length of the call's start) lies on one side of the map edge: B inside, 0 outside.
+        auto local_field = [&](Real3 const& x, double len, LD Bout[3]) -> bool {
+            for (int i = 0; i < 3; ++i)
+                Bout[i] = B[i];
+            if (sf.fk == Fk::rzs)
+                return false;
+            if (sf.fk != Fk::rzi)
+                return true;
+            LD const d = rzi_depth(x);
+            if (fabsl(d) <= LD(len) * 1.01L + 1e-4L)
+                return false;
+            if (d < 0)
+                Bout[0] = Bout[1] = Bout[2] = 0;
+            return true;
+        };
 
         auto const& SC = starts[ig];
         for (size_t ic = 0; ic < SC.size(); ++ic)
@@ -1155,6 +1675,14 @@ int main(int argc, char** argv)
                     continue;
                 }
             }
+            // sub-resolution steps: head-on from within minimum_step, on-boundary without set_dir,
+            // and one interior start
+            bool const tiny_start = !zh
+                                    && ((C.kind == 1 && C.desc.compare(0, 4, "near") == 0
+                                         && C.desc.find("h5e-07") != std::string::npos)
+                                        || (C.kind == 2 && !C.redirect) || (C.kind == 0 && ic == 0));
+            bool const dense_start = (C.kind == 1 && C.desc.compare(0, 4, "near") == 0)
+                                     || (C.kind == 2 && C.redirect);
             for (size_t is = 0; is < steps.size(); ++is)
             {
                 for (int k : ks)
@@ -1162,7 +1690,17 @@ int main(int argc, char** argv)
                     // checkerboard over (start configuration, step): every start configuration and
                     // every step length occurs, each pair in one of the two colours (the thorough
                     // tier has about twice as many start configurations as the quick tier)
-                    if ((ic + is + ig) % 2)
+                    // The colour depends on the block (radius, stepper/field) as well, so both
+                    // colours of every (start, step) pair are executed in each tier; thorough tier:
+                    // head-on and redirected on-boundary starts are not thinned at all.
+                    if (is >= n_regular_steps)
+                    {
+                        if (!tiny_start)
+                            continue;
+                    }
+                    else if (thorough && dense_start)
+                        ;
+                    else if ((ic + is + ig + ir + isf) % 2)
                         continue;
                     if (R.replay() && !R.want(bid + fmt(";c=%zu;s=%zu;k=%d", ic, is, k)))
                         continue;
@@ -1176,16 +1714,39 @@ int main(int argc, char** argv)
                                    vf::dstr(steps[is]).c_str(), k, radius, vf::dstr(ke).c_str());
                     };
                     std::string const stsig = zh ? "[zhelix]" : "";
+                    // Exits of the FieldDriver trial loops that return a (step, state) pair which do
+                    // not belong together are findings of their own (see analyse_trace); they are
+                    // only reachable with a small max_nsteps.  A violation is attributed to such a
+                    // mechanism ONLY if the mechanism was observed in the very call that is judged
+                    // (for the cumulative oracle: in some call of the trajectory so far), and the
+                    // oracle that noticed it stays in the signature.
+                    Exhaust ex_call, ex_traj;
                     auto viol = [&](std::string const& sig, std::string const& msg) {
-                        // With max_nsteps = 3 the chord search runs out of trials; everything that
-                        // follows from that is one finding, whichever oracle notices it first.
-                        bool const fold = (O.name == "nsteps3"
-                                           && sig.find("direction-kink-landing") == std::string::npos);
-                        R.violation(fold ? "driver:chord-search-exhausted(max_nsteps=3)-step-and-state-disagree"
-                                         : sig + stsig,
-                                    full_id(), describe() + " :: [" + sig + "] " + msg);
+                        bool const cumulative = sig.find("subdivided-path") != std::string::npos;
+                        Exhaust const& x = cumulative ? ex_traj : ex_call;
+                        std::string out = sig + stsig;
+                        if (sig.find("direction-kink-landing") != std::string::npos)
+                            ;
+                        else if (x.chord_kept)
+                            out = "driver:chord-search-exhausted-step-and-state-disagree[" + sig + "]";
+                        else if (x.ogs)
+                            out = "driver:one-good-step-exhausted-step-and-state-disagree[" + sig + "]";
+                        else if (x.chord_discarded && sig.compare(0, 5, "skip:") == 0)
+                            // find_next_chord ran out, accurate_advance then integrated the rescaled
+                            // step accurately - but its sagitta was never brought below delta_chord,
+                            // and only the chord is tested for boundaries
+                            out = "driver:chord-search-exhausted-substep-sagitta-unchecked[" + sig + "]";
+                        R.violation(out, full_id(), describe() + " :: [" + sig + "] " + msg);
                     };
 
+                    auto vname = [&](OrangeTrackView const& g) -> std::string {
+                        if (g.is_outside())
+                            return "[outside]";
+                        VolumeId v = g.volume_id();
+                        if (!v || v.get() >= G.params->volumes().size())
+                            return "[invalid]";
+                        return G.params->volumes().at(v).name;
+                    };
                     //// initialise the track ////
                     auto geo = G.track();
                     geo = GeoTrackInitializer{C.pos, C.dir};
@@ -1232,8 +1793,9 @@ int main(int argc, char** argv)
                     double const p_before = particle.momentum().value();
 
                     Helix H0;  // anchored at the trajectory start
-                    H0.init(geo.pos(), geo.dir(), B, q, p_mev);
-                    LD const inv_r = fabsl(H0.omega);  // rotation per unit arc length
+                    LD Btraj[3];
+                    bool const traj_helix = local_field(geo.pos(), steps[is], Btraj);
+                    H0.init(geo.pos(), geo.dir(), Btraj, q, p_mev);
                     LD D_total = 0;
                     LD tol_cum = 0;  // accumulated position tolerance of the calls so far
                     std::vector<std::pair<LD, LD>> kinks;  // (arc length, direction tolerance) per call
@@ -1248,11 +1810,31 @@ int main(int argc, char** argv)
                         Real3 const u_start = geo.dir();
                         VolumeId const vol0 = geo.volume_id();
                         bool const onb0 = geo.is_on_boundary();
-                        int const reg0 = G.vol2reg[vol0.unchecked_get()];
+                        int const reg0 = (!geo.is_outside() && vol0 && vol0.get() < G.vol2reg.size())
+                                             ? G.vol2reg[vol0.unchecked_get()]
+                                             : -1;
                         if (reg0 < 0)
-                            R.harness_error("unmapped volume: " + full_id());
+                        {
+                            // Before the first call only the harness has touched the geometry
+                            // state; afterwards it is the result of the propagation under test
+                            // (and of crossing the boundary it reported): a verdict, not a
+                            // harness problem.
+                            if (j == 0)
+                                R.harness_error("unmapped volume at the start: " + full_id());
+                            viol("flags:geometry-state-invalid-after-propagation",
+                                 fmt("before call %d the track is in no known volume (outside=%d)", j,
+                                     geo.is_outside()));
+                            break;
+                        }
                         Helix H;
-                        H.init(x_start, u_start, B, q, p_mev);
+                        LD Bcall[3];
+                        bool const call_helix = local_field(x_start, sub, Bcall);
+                        H.init(x_start, u_start, Bcall, q, p_mev);
+                        LD const inv_r = fabsl(H.omega);  // rotation per unit arc length
+                        if (sf.fk == Fk::rzi)
+                            R.tag(!call_helix    ? "rzi:call-may-cross-the-map-edge(no helix oracle)"
+                                  : H.omega != 0 ? "rzi:call-inside-the-map(helix)"
+                                                 : "rzi:call-outside-the-map(straight line)");
 
                         // k == 1: also run the anchored factory on an identical fresh state and
                         // require bit-identical results (it is the composition used below)
@@ -1270,10 +1852,30 @@ int main(int argc, char** argv)
 
                         TraceGeo tg{geo};
                         tg.verbose = R.verbose();
+                        DriverTrace dtr;
+                        dtr.full = trace_full;
+                        tg.tr = &dtr;
                         int nst = 0;
-                        Propagation r = propagate_once(sf, fs, B, O.o, particle, tg, sub, false, &nst);
+                        Propagation r = propagate_once(sf, fs, B, O.o, particle, tg, sub, false, &nst, &dtr);
                         ++ncalls;
                         R.count("evaluations");
+                        ex_call = Exhaust{};
+                        if (trace_full)
+                        {
+                            ex_call = analyse_trace(dtr, O.o);
+                            ex_traj.chord_kept |= ex_call.chord_kept;
+                            ex_traj.ogs |= ex_call.ogs;
+                            if (ex_call.chord_kept)
+                                R.tag("driver:chord-search-exhausted(result returned)");
+                            if (ex_call.chord_discarded)
+                                R.tag("driver:chord-search-exhausted(result replaced by accurate_advance)");
+                            if (ex_call.ogs)
+                                R.tag("driver:one-good-step-exhausted");
+                            if (ex_call.acc_budget)
+                                R.tag("driver:accurate-advance-used-all-max_nsteps");
+                            if (!ex_call.any_mismatch())
+                                R.tag("driver:small-max_nsteps-call-judged-under-real-signatures");
+                        }
 
                         if (R.verbose())
                         {
@@ -1284,10 +1886,16 @@ int main(int argc, char** argv)
                                     r.looping, vf::dstr(geo.pos()[0]).c_str(), vf::dstr(geo.pos()[1]).c_str(),
                                     vf::dstr(geo.pos()[2]).c_str(), vf::dstr(geo.dir()[0]).c_str(),
                                     vf::dstr(geo.dir()[1]).c_str(), vf::dstr(geo.dir()[2]).c_str(),
-                                    geo.is_on_boundary(),
-                                    geo.is_outside() ? "[outside]"
-                                                     : G.params->volumes().at(geo.volume_id()).name.c_str(),
+                                    geo.is_on_boundary(), vname(geo).c_str(),
                                     tg.n_find, tg.n_accept, tg.n_retry, nst);
+                        }
+                        //// geometry state after the call (checked before anything uses it) ////
+                        if (geo.failed())
+                        {
+                            viol("flags:geometry-failed-after-propagation",
+                                 fmt("call %d: geo.failed() after propagate(%s): dist=%s boundary=%d looping=%d", j,
+                                     vf::dstr(sub).c_str(), vf::dstr(r.distance).c_str(), r.boundary, r.looping));
+                            break;
                         }
                         if (twin)
                         {
@@ -1345,16 +1953,20 @@ int main(int argc, char** argv)
                         if (kind == 1 && full)
                             viol("flags:looping-after-full-step", fmt("call %d", j));
                         if (r.boundary != geo.is_on_boundary())
+                        {
                             viol("flags:boundary-flag-differs-from-geometry",
                                  fmt("call %d result.boundary=%d geo.is_on_boundary=%d", j, r.boundary,
                                      geo.is_on_boundary()));
+                            // the trajectory cannot be continued (crossing needs a surface state)
+                            stop_traj = true;
+                        }
                         if (geo.is_outside() || geo.volume_id() != vol0)
+                        {
                             viol("flags:volume-changed-by-propagation",
-                                 fmt("call %d volume %s -> %s", j,
-                                     G.params->volumes().at(vol0).name.c_str(),
-                                     geo.is_outside()
-                                         ? "[outside]"
-                                         : G.params->volumes().at(geo.volume_id()).name.c_str()));
+                                 fmt("call %d volume %s -> %s", j, G.params->volumes().at(vol0).name.c_str(),
+                                     vname(geo).c_str()));
+                            stop_traj = true;  // the oracles below are for the start volume
+                        }
 
                         //// analytic membership at the end point ////
                         LD pe[3] = {geo.pos()[0], geo.pos()[1], geo.pos()[2]};
@@ -1382,7 +1994,7 @@ int main(int argc, char** argv)
 
                         //// helix ////
                         D_total += r.distance;
-                        if (sf.uniform())
+                        if (call_helix)
                         {
                             LD const Dj = r.distance;
                             LD const xn = sqrtl(pe[0] * pe[0] + pe[1] * pe[1] + pe[2] * pe[2]);
@@ -1423,8 +2035,13 @@ int main(int argc, char** argv)
                                 // (FieldPropagator: `update_length <= minimum_substep` commits
                                 // substep.state.mom): the landing chord was hit within minimum_step
                                 // of its start although it is much longer than delta_intersection.
+                                // The committed momentum then belongs to the END of that trial
+                                // substep, whose length is at most the first trial length of the
+                                // last FieldDriver::advance: the direction cannot be off by more
+                                // than that rotation.  Anything larger is not this finding.
                                 bool const at_start = (kind == 2 && tg.last_dist <= T.min_step
-                                                       && tg.last_max - tg.last_dist > 3 * T.d_int);
+                                                       && tg.last_max - tg.last_dist > 3 * T.d_int
+                                                       && ddev <= LD(dtr.last_h_first) * inv_r + tol_dir);
                                 viol(at_start ? "helix:direction-kink-landing-at-start-of-long-substep"
                                               : "helix:end-direction-off-helix",
                                      fmt("call %d |dir - helix dir|=%Lg tol=%Lg (eps-term=%Lg, arc slack %Lg / R %Lg) "
@@ -1436,7 +2053,7 @@ int main(int argc, char** argv)
                             // a direction error admitted at the end of call i is carried over the
                             // remaining path
                             tol_cum += tol_pos;
-                            if (k > 1 && kind != 3)
+                            if (k > 1 && kind != 3 && traj_helix)
                             {
                                 LD carried = 0;
                                 for (auto const& kk : kinks)
@@ -1560,6 +2177,17 @@ int main(int argc, char** argv)
                             R.tag("zhelix:stopped-at-first-landing");
                             break;
                         }
+                        if (onb0 && kind != 2 && geo.pos() == x_start)
+                        {
+                            // A step below the resolution of the coordinates was accepted from a
+                            // start ON a boundary: move_internal() to the identical position clears
+                            // the surface state although the point still lies on the surface.  The
+                            // next query would find that surface at distance ~0 and crossing it can
+                            // fail inside ORANGE; that is the navigation state problem recorded for
+                            // C05 ("internal move rounded onto a surface"), not a claim of C08.
+                            R.tag("traj:stopped-after-zero-length-move-off-a-boundary");
+                            break;
+                        }
                         if (kind == 3)
                         {
                             // After the bump the navigation state is, by the class's own comment,
@@ -1570,10 +2198,46 @@ int main(int argc, char** argv)
                         if (kind == 2)
                         {
                             geo.cross_boundary();
+                            if (geo.failed())
+                            {
+                                // ORANGE could not cross the surface the propagator says it landed
+                                // on (flag and surface state agreed, the point is on the analytic
+                                // surface): the landing is not a point where the path leaves the
+                                // volume.  Never seen on the unchanged code.
+                                viol("member:reported-landing-cannot-be-crossed",
+                                     fmt("call %d: cross_boundary() failed at (%s,%s,%s) dir (%s,%s,%s)", j,
+                                         vf::dstr(geo.pos()[0]).c_str(), vf::dstr(geo.pos()[1]).c_str(),
+                                         vf::dstr(geo.pos()[2]).c_str(), vf::dstr(geo.dir()[0]).c_str(),
+                                         vf::dstr(geo.dir()[1]).c_str(), vf::dstr(geo.dir()[2]).c_str()));
+                                break;
+                            }
+                            if (R.verbose())
+                                fprintf(stderr, "  crossed -> vol=%s onb=%d\n", vname(geo).c_str(), geo.is_on_boundary());
                             if (geo.is_outside())
                             {
                                 R.tag("traj:left-world");
                                 break;
+                            }
+                            {
+                                // the volume ORANGE reports after the crossing must contain the
+                                // landing point (which was just verified to lie on the surface of
+                                // the old volume): otherwise every later call starts from an
+                                // inconsistent navigation state
+                                VolumeId vn = geo.volume_id();
+                                int regn = (vn && vn.get() < G.vol2reg.size()) ? G.vol2reg[vn.unchecked_get()] : -1;
+                                LD pc[3] = {geo.pos()[0], geo.pos()[1], geo.pos()[2]};
+                                if (regn < 0 || region_depth(G.prims, G.regions[regn], pc) < -1e-6L)
+                                {
+                                    viol("nav:volume-after-crossing-does-not-contain-the-landing-point",
+                                         fmt("call %d landed in '%s' at (%s,%s,%s) dir (%s,%s,%s); cross_boundary() "
+                                             "-> '%s', analytic depth there %Lg",
+                                             j, G.regions[reg0].name.c_str(), vf::dstr(geo.pos()[0]).c_str(),
+                                             vf::dstr(geo.pos()[1]).c_str(), vf::dstr(geo.pos()[2]).c_str(),
+                                             vf::dstr(geo.dir()[0]).c_str(), vf::dstr(geo.dir()[1]).c_str(),
+                                             vf::dstr(geo.dir()[2]).c_str(), vname(geo).c_str(),
+                                             regn < 0 ? LD(0) : region_depth(G.prims, G.regions[regn], pc)));
+                                    break;
+                                }
                             }
                         }
                     }
